@@ -136,7 +136,7 @@ def c16(tier, seed, replay=None):
                 "skipped": {"count": len(skipped), "why": sorted({o["err"] for o in skipped})},
                 "per_operator": per_op, "exhaustive": True,
                 "rule": "a case = (operator, input shape, output shape, argument layout: number of positional arguments 1..3 x position of the differentiated "
-                        "one x keyword argument passed or not, scale); all 20 operators x 6 input shapes x 6 output shapes where defined; exact integer "
+                        "one x keyword argument passed or not, scale); all 29 operators (23 operators and 6 operators-of-operators) x 6 input shapes x 6 output shapes where defined; exact integer "
                         "comparison of shape (out ++ in order) and entries",
                 "samples": [{k: o[k] for k in ("op", "ins", "outs", "lay", "shape")} for o in (keep[0], keep[len(keep) // 2], keep[-1])],
                 "known_findings_reobserved": verdict.known_hits}
